@@ -32,8 +32,11 @@ def toQ (T : Tab (Ext Rat)) : Option QTab := do
          basis := T.basis, value := ← finOf T.value }
 
 def qabs (x : Rat) : Rat := if x < 0 then -x else x
-def close (x y : Rat) : Bool := qabs (x - y) ≤ (max 1 (max (qabs x) (qabs y))) / 1000000
-def closeL (xs ys : List Rat) : Bool := xs.length == ys.length && (List.zip xs ys).all fun (x, y) => close x y
+/-- equality up to IEEE rounding: relative `1e-6` of the values compared, plus `1e-11` of the largest magnitude
+`scale` in the instance's data (a difference of two numbers of size `scale` cancels down to `~1e-16·scale`
+per operation; the implementation's tableaus are only that exact). -/
+def close (scale x y : Rat) : Bool := qabs (x - y) ≤ (max 1 (max (qabs x) (qabs y))) / 1000000 + scale / 100000000000
+def closeL (scale : Rat) (xs ys : List Rat) : Bool := xs.length == ys.length && (List.zip xs ys).all fun (x, y) => close scale x y
 
 /-- Gauss–Jordan on the given pivot columns (in order) of augmented rows; `none` if some column has no
 pivot.  Returns the pivot rows in basis order and the left-over rows. -/
@@ -56,6 +59,8 @@ structure Ref where
   A : List (List Rat)
   b : List Rat
   c : List Rat
+  /-- largest magnitude in the data (≥ 1) -/
+  scale : Rat
 
 def viol (kind : String) (extra : List Sexp) : Sexp := app "violation" (.atom kind :: extra)
 
@@ -78,7 +83,7 @@ def checkTab (tol : Rat) (R : Ref) (k : Nat) (T : QTab) : Except Sexp Rat := do
     for (i, (ra, rb)) in (List.zip T.a T.b).zipIdx.map (fun (p, i) => (i, p)) do
       let ea := exA.getD i []
       let eb := exB.getD i 0
-      if !(closeL ra ea) || !(close rb eb) then
+      if !(closeL R.scale ra ea) || !(close R.scale rb eb) then
         -- sub-classify: a discrepancy below the tolerance of the float predicates
         let d := (List.zip (ra ++ [rb]) (ea ++ [eb])).foldl (fun acc (x, y) => max acc (qabs (x - y))) 0
         throw (viol (if d ≤ 2 * tol then "equation-system-changed-within-tolerance" else "equation-system-changed")
@@ -87,25 +92,25 @@ def checkTab (tol : Rat) (R : Ref) (k : Nat) (T : QTab) : Except Sexp Rat := do
     for (i, j) in T.basis.zipIdx.map (fun (j, i) => (i, j)) do
       for (i', r) in T.a.zipIdx.map (fun (r, i) => (i, r)) do
         let want : Rat := if i' == i then 1 else 0
-        if qabs (r.getD j 0 - want) > 1 / 1000000000 then
+        if qabs (r.getD j 0 - want) > 1 / 1000000000 + R.scale / 100000000000 then
           throw (viol "basic-column-not-unit" [at_, encNat j, encNat i', encQ (r.getD j 0)])
     -- feasibility of the basic solution (exact, and as stored)
     match exB.find? (· < 0) with
     | some v => throw (viol (if v ≥ -(10 * tol) then "basic-solution-negative-within-tolerance" else "basic-solution-negative") [at_, encQ v])
     | none => pure ()
-    match T.b.find? (· < -tol) with
+    match T.b.find? (· < -(tol + R.scale / 100000000000)) with
     | some v => throw (viol "stored-b-negative" [at_, encQ v])
     | none => pure ()
     -- the stored basic solution satisfies the ORIGINAL rows
     let x := scatter R.n T.basis T.b
     for (r, bi) in List.zip R.A R.b do
-      if !(close (dot r x) bi) then throw (viol "basic-solution-violates-original-rows" [at_, encQs x, encQ (dot r x), encQ bi])
+      if !(close R.scale (dot r x) bi) then throw (viol "basic-solution-violates-original-rows" [at_, encQs x, encQ (dot r x), encQ bi])
     -- reduced costs and value
     let cB := T.basis.map (R.c.getD · 0)
     let exC := (List.range R.n).map fun j => R.c.getD j 0 - dot cB (exA.map (·.getD j 0))
     let z := dot cB exB
-    if !(closeL T.c exC) then throw (viol "reduced-costs-wrong" [at_, encQs T.c, encQs exC])
-    if !(close T.value (-z)) then throw (viol "value-does-not-track-objective" [at_, encQ T.value, encQ (-z)])
+    if !(closeL R.scale T.c exC) then throw (viol "reduced-costs-wrong" [at_, encQs T.c, encQs exC])
+    if !(close R.scale T.value (-z)) then throw (viol "value-does-not-track-objective" [at_, encQ T.value, encQ (-z)])
     pure z
 
 def decTab (s : Sexp) : Option QTab := (Tab.dec s : Option (Tab (Ext Rat))).bind toQ
@@ -115,7 +120,8 @@ def checkRaw (tol : Rat) (sm : StdModel (Ext Rat)) (start : Sexp) (steps : List 
         optAllR (fun (r : StdRow (Ext Rat)) => do pure ((← optAllR finOf r.coeffs), (← finOf r.rhs))) sm.rows with
   | some c, some rows =>
     let n := sm.vars.length
-    let R : Ref := { n := n, A := rows.map (·.1), b := rows.map (·.2), c := c }
+    let scale := (c ++ rows.map (·.2) ++ (rows.map (·.1)).flatten).foldl (fun m x => max m (qabs x)) 1
+    let R : Ref := { n := n, A := rows.map (·.1), b := rows.map (·.2), c := c, scale := scale }
     let small := binom n (min R.A.length n) ≤ 4000
     let verdict : Option Verdict := if small then some (bruteForce n R.A R.b R.c) else none
     let vname : String := match verdict with
@@ -154,7 +160,7 @@ def checkRaw (tol : Rat) (sm : StdModel (Ext Rat)) (start : Sexp) (steps : List 
           | .list [.atom "final", .atom stepStatus, .list (.atom "solve" :: .atom solveStatus :: solveRest)] =>
             let stepCheck : Option Sexp :=
               match stepStatus, verdict with
-              | "finished", some (.optimal v _) => if close v zLast then none else some (viol "finished-not-optimal" [encQ zLast, encQ v])
+              | "finished", some (.optimal v _) => if close R.scale v zLast then none else some (viol "finished-not-optimal" [encQ zLast, encQ v])
               | "finished", some .unbounded => some (viol "finished-but-unbounded" [encQ zLast])
               | "finished", some .infeasible => some (viol "finished-on-infeasible-problem" [])
               | "unbounded", some .unbounded => none
@@ -167,7 +173,7 @@ def checkRaw (tol : Rat) (sm : StdModel (Ext Rat)) (start : Sexp) (steps : List 
               | "ok", some (.optimal v _) =>
                 (match solveRest with
                  | stdVal :: _ => (match (decNumS stdVal : Option (Ext Rat)) with
-                   | some (.fin q) => if close q v then none else some (viol "solve-value-wrong" [encQ q, encQ v])
+                   | some (.fin q) => if close R.scale q v then none else some (viol "solve-value-wrong" [encQ q, encQ v])
                    | _ => some (viol "solve-value-not-finite" []))
                  | _ => none)
               | "ok", some .unbounded => some (viol "solve-finished-but-unbounded" [])
